@@ -19,13 +19,20 @@ META = {
     ],
 }
 
-NODES = ["world", "a", "b", "c"]
-SHAPES = [
-    [("world", "a"), ("a", "b"), ("b", "c")],  # chain
-    [("world", "a"), ("world", "b"), ("world", "c")],  # star
-    [("world", "a"), ("a", "b"), ("world", "c")],  # mixed
-    [("world", "a"), ("a", "b"), ("a", "c")],  # fork below a
-]
+W = "world"
+NODES = [W, "a", "b", "c"]
+_SHAPE_IDX = [[(0, 1), (1, 2), (2, 3)], [(0, 1), (0, 2), (0, 3)], [(0, 1), (1, 2), (0, 3)], [(0, 1), (1, 2), (1, 3)]]  # chain, star, mixed, fork below a
+SHAPES = [[(NODES[u], NODES[v]) for u, v in sh] for sh in _SHAPE_IDX]
+
+
+def _setnames(kind):
+    """frame names used by the unit: the default strings, or integers with a FALSY base frame (0) - every frame name is just a
+    hashable, and a base frame / parent named 0 must behave like any other"""
+    global W, NODES, SHAPES
+    NODES = ["world", "a", "b", "c"] if kind != "int" else [0, 1, 2, 3]
+    W = NODES[0]
+    SHAPES = [[(NODES[u], NODES[v]) for u, v in sh] for sh in _SHAPE_IDX]
+
 
 
 class Ref:
@@ -96,7 +103,7 @@ class H:
         from trimesh.scene import transforms as ST
 
         self.ctx = ctx
-        self.g = ST.SceneGraph(repair_rigid=ctx.params.get("repair_rigid", 1e-5))
+        self.g = ST.SceneGraph(base_frame=W, repair_rigid=ctx.params.get("repair_rigid", 1e-5))
         self.ref = Ref()
         self.nmat = 0
         self.log = []
@@ -169,20 +176,20 @@ def _mutation(h, ctx, name):
     ref = h.ref
     kind = ctx.params["kinds"][int(name[1:])] if ctx.params.get("kinds") else ctx.choice(name + "_kind", 5)
     # operands are drawn only where the operation uses them (no duplicate histories)
-    x = "world" if kind == 4 else (NODES[ctx.params["x0"]] if (name == "m0" and ctx.params.get("x0") is not None) else NODES[ctx.choice(name + "_x", 4)])
-    y = NODES[ctx.choice(name + "_y", 4)] if kind == 1 else "world"
+    x = W if kind == 4 else (NODES[ctx.params["x0"]] if (name == "m0" and ctx.params.get("x0") is not None) else NODES[ctx.choice(name + "_x", 4)])
+    y = NODES[ctx.choice(name + "_y", 4)] if kind == 1 else W
     if kind == 0:  # update an existing edge in place
         if x not in ref.parent:
             return False
         h.update(x, ref.parent[x])
     elif kind == 1:  # re-parent x under y (or attach a root / new node)
-        if x == y or y not in ref.nodes or (x in ref.nodes and ref.would_cycle(y, x)) or x == "world":
+        if x == y or y not in ref.nodes or (x in ref.nodes and ref.would_cycle(y, x)) or x == W:
             return False
         if ref.parent.get(x) == y:
             return False
         h.update(x, y)
     elif kind == 2:  # remove a node
-        if x not in ref.nodes or x == "world":
+        if x not in ref.nodes or x == W:
             return False
         h.remove(x)
     elif kind == 3:  # change the base frame
@@ -203,6 +210,7 @@ def _mutation(h, ctx, name):
 
 
 def u_history(ctx):
+    _setnames(ctx.params.get("names"))
     h = H(ctx)
     shape = SHAPES[ctx.params["shape"]]
     for u, v in shape:
@@ -291,6 +299,11 @@ def units(tier):
                              max_paths=1500, wall_s=600 if T else 200, ob_ms=30000, feas_ms=500, samples=1)
                     u.runner = _runner
                     us.append(u)
+    for shape, k1 in (((0, 1), (2, 1), (3, 1), (1, 0), (0, 2), (2, 3)) if not T else [(sh, k) for sh in range(4) for k in range(5)]):
+        u = Unit("history-intnames-shape%d-%s" % (shape, KINDS[k1]), u_history, params={"shape": shape, "sweep0": 1, "steps": 1, "kinds": (k1,), "x0": None, "names": "int"}, key="history", functions=FUNCS,
+                 bounds="as history-shape%d-sweep1-%s but the four frames are named 0, 1, 2, 3 (base frame 0 is falsy), operands symbolic" % (shape, KINDS[k1]), max_paths=1500, wall_s=600 if T else 200, ob_ms=30000, feas_ms=500, samples=1)
+        u.runner = _runner
+        us.append(u)
     if T:
         for shape in (0, 2):
             u = Unit("history-norepair-shape%d" % shape, u_history, params={"shape": shape, "sweep0": 1, "steps": 1, "repair_rigid": None}, key="history", functions=FUNCS, bounds="as above with repair_rigid=None, mutation kind symbolic", max_paths=2000, wall_s=600, samples=1)
